@@ -169,3 +169,57 @@ func runDebugRule(name string) int {
 func init() {
 	debugRules["copy"] = func(c *Ctx, r *Report) { ruleDeepCopy(c, r, "") }
 }
+
+// `xzverify debug terms:<pkg>:<Func>` prints the term paths of one function.
+func runDebugTerms(spec string) int {
+	c, err := Load(repoDir(), "")
+	if err != nil {
+		fmt.Println(err)
+		return 2
+	}
+	parts := splitN(spec, ":", 2)
+	fn := c.Func(parts[0], parts[1])
+	if fn == nil {
+		fmt.Println("no such function")
+		return 2
+	}
+	paths, over := collectTermPaths(c, termSpec{Fn: fn, MaxVisit: 6, })
+	fmt.Println("paths", len(paths), "overflow", over)
+	for i, p := range paths {
+		fmt.Println("--- path", i)
+		for _, cd := range p.Conds {
+			fmt.Println("   if", cd)
+		}
+		for _, ev := range p.Events {
+			fmt.Println("   ev", ev.String(), "->", ev.Result)
+		}
+		for k, v := range p.Mem {
+			fmt.Println("   mem", k, "=", v)
+		}
+		fmt.Println("   ret", p.Rets)
+	}
+	return 0
+}
+
+func splitN(s, sep string, n int) []string {
+	var out []string
+	for len(out) < n-1 {
+		i := -1
+		for j := 0; j+len(sep) <= len(s); j++ {
+			if s[j:j+len(sep)] == sep {
+				i = j
+				break
+			}
+		}
+		if i < 0 {
+			break
+		}
+		out = append(out, s[:i])
+		s = s[i+len(sep):]
+	}
+	return append(out, s)
+}
+
+func init() {
+	debugRules["sibop"] = func(c *Ctx, r *Report) { ruleOpSiblings(c, r, "") }
+}
